@@ -86,6 +86,28 @@ def r1_by_descriptor(ctx):
                 okg = True
         (out.append(holds("C09.R1", "%s:global-handle" % fn_key(fb), fb.where(), "uses GLOBAL_PROCFS_HANDLE")) if okg else
          out.append(violated("C09.R1", "%s:global-handle" % fn_key(fb), fb.where(), "does not reopen through the library's own procfs handle")))
+        # ... and nothing else is ever returned as "the reopened file" (a duplicate of the handle shares its open
+        # file description: offset, status flags, locks)
+        ro = [o for o in T.return_origins(fb, OKP) if not (o.kind == "call" and o.term.callee == "std::ops::FromResidual::from_residual")]
+        other = [o for o in ro if not (o.kind == "call" and o.term.callee == "utils::fd::FdExt::reopen")]
+        if fn.startswith("capi"):
+            continue
+        if other or not ro:
+            out.append(violated("C09.R1", "%s:only-source" % fn_key(fb), (other[0].term.where() if other and other[0].term is not None else fb.where()),
+                                "the file handed back by reopen does not always come from the by-descriptor reopen: %s" % sorted({repr(o) for o in other})[:4]))
+        else:
+            out.append(holds("C09.R1", "%s:only-source" % fn_key(fb), fb.where(), "every returned file is the result of FdExt::reopen"))
+    return out
+
+
+def reopen_by_descriptor(ctx, rule):
+    """The part of R1 that other properties rely on whenever they reopen a resolved handle (one-shot open on the
+    emulated backend, mkdir_all's directory handle): the reopen goes through thread-self/fd/<own number>."""
+    out = []
+    for i in r1_by_descriptor(ctx):
+        if i.key.startswith(("reopen:", "proc_subpath:")):
+            i.rule = rule
+            out.append(i)
     return out
 
 
@@ -264,6 +286,25 @@ def r4_final_open(ctx):
     return out
 
 
+def _probe_is_truthful(ctx):
+    """The probe of R5 is ProcfsHandle::readlink; 'ENOENT' selects the no-follow open.  That is only sound if the
+    probe's ENOENT is the kernel's: readlink neither makes up errnos nor edits the link body it returns."""
+    from .c02 import r9_observed_path
+    from .c08 import r4_true_errors
+    out = []
+    for i in r9_observed_path(ctx):
+        if i.key.startswith("ProcfsHandle::readlink:"):
+            i.rule = "C09.R5"
+            i.key = "probe:" + i.key
+            out.append(i)
+    for i in r4_true_errors(ctx):
+        if i.key.startswith("readlink:") or "ProcfsHandle::readlink" in i.key:
+            i.rule = "C09.R5"
+            i.key = "probe:" + i.key
+            out.append(i)
+    return out
+
+
 def r5_probe_discipline(ctx):
     """open_follow decides between 'follow the magic-link' and 'no-follow open' by a readlink probe.  A failing
     probe may select the no-follow open (which, with O_PATH, returns the link itself: a different object) only
@@ -272,7 +313,7 @@ def r5_probe_discipline(ctx):
     from ..cut import errno_branches, failure_edges
     F = ctx.facts
     T = ctx.tracer
-    out = []
+    out = _probe_is_truthful(ctx)
     b = F.body(PH + "::open_follow")
     cfg = cfg_of(b)
     probes = list(b.calls(PH + "::readlink"))
